@@ -15,6 +15,29 @@ H("k1_mul2", src="k_gf.c", tus=["gf"], flags=CAD, cap=60, rss=0.5)
 for n, cap in (("k2_eval", 120), ("k2_single", 240), ("k2_swap", 240), ("k2_unique", 240), ("k2_coin", 120)):
     H(n, src="k_gf.c", tus=["gf"], flags=CAD + ["--unwind", "17"], cap=cap, rss=1.0)
 
+for n in ("k3_pack", "k3_unpack", "k3_round"):
+    H(n, src="k_codec.c", tus=["gf"], flags=CAD + ["--unwind", "33"], cap=120, rss=1.0)
+H("k4_birthday", src="k_codec.c", tus=[], flags=CAD, cap=120, rss=1.0)
+H("k5_features", src="k_codec.c", tus=["features"], flags=CAD + ["--unwind", "4"], cap=60, rss=0.5)
+H("k5_default", src="k_codec.c", tus=["features"], flags=CAD, cap=60, rss=0.5)
+H("k6_store", src="k_codec.c", tus=["storage"], flags=CAD + ["--unwind", "33"], cap=120, rss=1.0)
+H("k6_load", src="k_codec.c", tus=["storage"], flags=CAD + ["--unwind", "33"], cap=120, rss=1.0)
+
+API_TUS = ["polyseed", "gf", "storage", "features", "dependency"]
+H("k7_keygen", src="k_api.c", tus=API_TUS, flags=CAD + ["--unwind", "65"], cap=180, rss=1.5)
+H("k7_inject", src="k_api.c", tus=API_TUS, flags=CAD + ["--unwind", "65"], cap=180, rss=1.5)
+H("k8_crypt", src="k_api.c", tus=API_TUS, flags=CAD + ["--unwind", "65"], cap=300, rss=2.0)
+H("k9_create", src="k_api.c", tus=API_TUS, flags=CAD + ["--unwind", "65"], cap=180, rss=1.5)
+H("p7_load", src="k_api.c", tus=API_TUS, flags=CAD + ["--unwind", "65"], cap=180, rss=1.5)
+H("p7_store", src="k_api.c", tus=API_TUS, flags=CAD + ["--unwind", "65"], cap=180, rss=1.5)
+H("h_free", src="k_api.c", tus=API_TUS, flags=CAD + ["--unwind", "65"], cap=120, rss=1.0)
+H("h_inject", src="k_api.c", tus=API_TUS, flags=CAD + ["--unwind", "65"], cap=120, rss=1.0)
+
+P5_STRIP = {"polyseed": ["__CPROVER_file_local_polyseed_c_str_split",
+                        "__CPROVER_file_local_dependency_h_utf8_nfkd_lazy"]}
+for n in ("p5_decode", "p5_decode_explicit"):
+    H(n, src="p_decode.c", tus=API_TUS, strip=P5_STRIP, flags=CAD + ["--unwind", "65"], cap=240, rss=2.0)
+
 PROPS = {}
 
 
